@@ -565,3 +565,55 @@ func (v *VerifAdvEnfConn) IdleDeadline() (deadline, pto3 time.Duration) {
 	c := v.C
 	return c.nextIdleTimeoutTime().Sub(c.idleTimeoutStartTime()), c.rttStats.PTO(true) * 3
 }
+
+// SendDatagramProbe: Conn.SendDatagram of n bytes when the peer advertised max_datagram_frame_size
+// mdfs and the MTU estimate is mtu. Returns whether it was accepted, the limit a
+// DatagramTooLargeError reports (-1 otherwise), and the total size of the frame queued (type
+// byte + length field + payload; 0 if none). The queued frame is removed again.
+func (v *VerifAdvEnfConn) SendDatagramProbe(mdfs, mtu int64, n int) (ok bool, reported int64, frameSize int64, err error) {
+	c := v.C
+	if c.peerParams == nil {
+		return false, -1, 0, errors.New("no peer parameters")
+	}
+	c.peerParams.MaxDatagramFrameSize = protocol.ByteCount(mdfs)
+	c.currentMTUEstimate.Store(uint32(mtu))
+	e := c.SendDatagram(make([]byte, n))
+	if e == nil {
+		if f := c.datagramQueue.Peek(); f != nil {
+			frameSize = int64(f.Length(c.version))
+			c.datagramQueue.Pop()
+		}
+		return true, -1, frameSize, nil
+	}
+	var tl *DatagramTooLargeError
+	if errors.As(e, &tl) {
+		return false, tl.MaxDatagramPayloadSize, 0, nil
+	}
+	return false, -1, 0, e
+}
+
+// VerifAdvEnfIdleDeadlineOf: nextIdleTimeoutTime - idleTimeoutStartTime and the 3*PTO that entered it,
+// of any connection (read while its goroutines are idle).
+func VerifAdvEnfIdleDeadlineOf(c *Conn) (deadline, pto3 time.Duration) {
+	return c.nextIdleTimeoutTime().Sub(c.idleTimeoutStartTime()), c.rttStats.PTO(true) * 3
+}
+
+// VerifAdvEnfOutgoingMaxStreams: how many streams of the type this connection may open in total
+// according to its own bookkeeping of the peer's limit (initial value and MAX_STREAMS received).
+func VerifAdvEnfOutgoingMaxStreams(c *Conn, uni bool) int64 {
+	m := c.streamsMap
+	if uni {
+		m.outgoingUniStreams.mutex.RLock()
+		defer m.outgoingUniStreams.mutex.RUnlock()
+		if m.outgoingUniStreams.maxStream == protocol.InvalidStreamID {
+			return 0
+		}
+		return int64(m.outgoingUniStreams.maxStream.StreamNum())
+	}
+	m.outgoingBidiStreams.mutex.RLock()
+	defer m.outgoingBidiStreams.mutex.RUnlock()
+	if m.outgoingBidiStreams.maxStream == protocol.InvalidStreamID {
+		return 0
+	}
+	return int64(m.outgoingBidiStreams.maxStream.StreamNum())
+}
